@@ -39,6 +39,8 @@ def push_hint(t):
             assert(castle_succ_ok(board, s, t));
             assert(castle_sound(board, s));
             lemma_castle_closure(board, s, t);
+            assert(castle_pos_after(board, s, t));
+            assert(is_successor(board, s));
         }''' % t
 
 SND = '@C01,C02| '
@@ -51,7 +53,7 @@ GC = {
         'prefix_kept(old(new_moves)@, final(new_moves)@)',
         # sound: every appended board is the result of an allowed castling of the side to move
         SND + 'forall|i: int| old(new_moves)@.len() <= i < final(new_moves)@.len() ==> castle_sound(board, #[trigger] &final(new_moves)@[i])',
-        SND + 'forall|i: int| old(new_moves)@.len() <= i < final(new_moves)@.len() ==> legal_position(#[trigger] &final(new_moves)@[i])',
+        SND + 'forall|i: int| old(new_moves)@.len() <= i < final(new_moves)@.len() ==> legal_position(#[trigger] &final(new_moves)@[i]) && is_successor(board, &final(new_moves)@[i])',
         KEY + 'forall|i: int| old(new_moves)@.len() <= i < final(new_moves)@.len() ==> key_ok(#[trigger] &final(new_moves)@[i], zobrist_hasher)',
         # complete: every allowed castling of the side to move was appended
         CMP + '''forall|t: CastlingType| right_color(t) == board.to_move && #[trigger] may_castle(board, t) ==>
@@ -81,7 +83,7 @@ GC = {
         assert forall|i: int| lo <= i < v.len() implies castle_sound(board, #[trigger] &v[i]) by {
             if i < v1.len() { assert(v[i] == v1[i]); } else if i < v2.len() { assert(v[i] == v2[i]); } else if i < v3.len() { assert(v[i] == v3[i]); }
         }
-        assert forall|i: int| lo <= i < v.len() implies legal_position(#[trigger] &v[i]) by {
+        assert forall|i: int| lo <= i < v.len() implies legal_position(#[trigger] &v[i]) && is_successor(board, &v[i]) by {
             if i < v1.len() { assert(v[i] == v1[i]); } else if i < v2.len() { assert(v[i] == v2[i]); } else if i < v3.len() { assert(v[i] == v3[i]); }
         }
     }''',
